@@ -181,8 +181,8 @@ def setdt(job):
 
 
 def _mk(kind, name, v):
-    from hl7apy.core import Segment, Field
-    return (Segment if kind == 'S' else Field)(name, version=v, validation_level=vlib.level(False))
+    from hl7apy.core import Segment, Field, Component
+    return {'S': Segment, 'F': Field, 'C': Component}[kind](name, version=v, validation_level=vlib.level(False))
 
 
 def addr(job):
